@@ -34,6 +34,14 @@ def _job(args):
     return len(vs), fails
 
 
+def _pmap(fn, items):
+    # measured on the loaded box: a fork pool is SLOWER than a plain loop for these sub-millisecond replays
+    # until there are some 10^5 of them (14 500 programs: 8 s serial, 17-67 s with 2-8 processes)
+    if len(items) < 60000:
+        return [fn(x) for x in items]
+    return core.parallel_map(fn, items, procs=8, chunk=2000)
+
+
 def run(tier: str) -> int:
     ck = core.Check("C36", tier)
     consts = QUICK if tier == "quick" else THOROUGH
@@ -61,7 +69,7 @@ def run(tier: str) -> int:
     if not all(vac.values()):
         raise RuntimeError(f"vacuous model run: {vac}")
     n_impl = 0
-    for n, fails in core.parallel_map(_job, [(ln, tier) for ln in conv], procs=8, chunk=200):
+    for n, fails in _pmap(_job, [(ln, tier) for ln in conv]):
         n_impl += n
         for f in fails:
             ck.fail(f)
